@@ -31,7 +31,10 @@ import (
 
 // ---- scripted driver (sequential use only)
 
-type c01Script struct{ err error }
+type c01Script struct {
+	err     error
+	provErr error // when set the conn's provider fails (no database handle)
+}
 
 type c01Connector struct{ s *c01Script }
 
@@ -120,6 +123,8 @@ type c01Outcome struct {
 
 var c01Custom = errors.New("c01: error accepted by the conn's custom accept option")
 
+var c01ProvErr = errors.New("c01: provider cannot open the database")
+
 type c01Env struct {
 	conn   *commonConn
 	spy    *c01Spy
@@ -140,6 +145,7 @@ func c01NewEnv(flavour string) *c01Env {
 			return nil
 		}
 		c.provider = func() (*sql.DB, error) { return db, nil }
+		c.onError = func(error) {}
 		cc = c
 	default:
 		c, ok := NewConnFromDB(db).(*commonConn)
@@ -150,6 +156,13 @@ func c01NewEnv(flavour string) *c01Env {
 			c.accept = func(err error) bool { return err == c01Custom }
 		}
 		cc = c
+	}
+	orig := cc.provider
+	cc.provider = func() (*sql.DB, error) {
+		if e.script.provErr != nil {
+			return nil, e.script.provErr
+		}
+		return orig()
 	}
 	e.spy = &c01Spy{Breaker: cc.brk}
 	cc.brk = e.spy
@@ -169,6 +182,10 @@ var c01Paths = []string{
 func c01Call(e *c01Env, path string, err error) error {
 	ctx := context.Background()
 	e.script.err = err
+	e.script.provErr = nil
+	if err == c01ProvErr {
+		e.script.provErr = err
+	}
 	var v int64
 	var vs []int64
 	const q = "select v from t"
@@ -217,7 +234,7 @@ func c01Call(e *c01Env, path string, err error) error {
 }
 
 func TestVerifC01SQLBenignTable(t *testing.T) {
-	m := vk.New(t, "C01", "sqlx conn over a scripted driver, real breaker behind a transparent spy, virtual clock frozen. Rows: conn flavour {plain NewConnFromDB, accept option set, NewMySQL (constructor-wired mysql accept)} x entry point {Exec, Prepare, QueryRow, QueryRowPartial, QueryRows, QueryRowsPartial, Transact and their Ctx forms} x outcome, each on a fresh conn. Benign on EVERY flavour {nil, sql.ErrNoRows, sql.ErrTxDone, context.Canceled} plus what the flavour's own accept declares benign (custom error / MySQL 1062) x150 => predicate true every time and the protected function always runs; failing {driver error, io.ErrUnexpectedEOF, context.DeadlineExceeded, error the flavour does not accept} x400 => predicate false and at least one call short-circuited with ErrServiceUnavailable; 10000 mixed benign outcomes over all entry points on one conn per flavour => 0 rejections; non-trivial = row completed (benign) / rejected (failing)")
+	m := vk.New(t, "C01", "sqlx conn over a scripted driver, real breaker behind a transparent spy, virtual clock frozen. Rows: conn flavour {plain NewConnFromDB, accept option set, NewMySQL (constructor-wired mysql accept)} x entry point {Exec, Prepare, QueryRow, QueryRowPartial, QueryRows, QueryRowsPartial, Transact and their Ctx forms} x outcome, each on a fresh conn. Benign on EVERY flavour {nil, sql.ErrNoRows, sql.ErrTxDone, context.Canceled} plus what the flavour's own accept declares benign (custom error / MySQL 1062) x150 => predicate true every time and the protected function always runs; failing {driver error, io.ErrUnexpectedEOF, context.DeadlineExceeded, provider cannot open the database, error the flavour does not accept} x400 => predicate false and at least one call short-circuited with ErrServiceUnavailable; 10000 mixed benign outcomes over all entry points on one conn per flavour => 0 rejections; non-trivial = row completed (benign) / rejected (failing)")
 	defer m.Done()
 	logx.Disable()
 	stat.SetReporter(nil)
@@ -238,6 +255,7 @@ func TestVerifC01SQLBenignTable(t *testing.T) {
 		{"driver-error", boom, false},
 		{"unexpected-EOF", io.ErrUnexpectedEOF, false},
 		{"context.DeadlineExceeded", context.DeadlineExceeded, false},
+		{"provider-error", c01ProvErr, false},
 	}
 	extra := map[string][]c01Outcome{
 		"plain":         {{"custom-not-accepted", c01Custom, false}},
